@@ -7,7 +7,7 @@ import ast
 from ..core import Ctx, RuleResult, finding, short, walk_no_nested
 from ..model import AnalysisError, norm
 from ..mutants import Mut
-from ..rules import canv, dim, fresh
+from ..rules import accum, canv, dim, fresh
 from ..rules.defuse import DefUse
 from ..rules.exc import ExcEngine
 from ..rules.util import callee_name, cfg_of, lin_str, linear, nodes_where
@@ -215,11 +215,14 @@ def run(ctx: Ctx):
         rule_cut_attr(ctx),
         rule_delta(ctx),
         rule_get_or(ctx),
+        accum.run_accum(p, "C02.9", "C02", floor=6),
     ]
 
 
 _C = "urwid/canvas.py"
 MUTANTS = [
+    Mut("trim-sides-skip-without-advance", _C, "shards_trim_sides", "            if done_rows or next_col <= left or col >= right:\n                col = next_col\n                continue", "            if done_rows:\n                continue\n            if next_col <= left or col >= right:\n                col = next_col\n                continue", "ACCUM|canvas.shards_trim_sides"),
+    Mut("twin-trim-sides-skip-split", _C, "shards_trim_sides", "            if done_rows or next_col <= left or col >= right:\n                col = next_col\n                continue", "            if done_rows:\n                col = next_col\n                continue\n            if next_col <= left or col >= right:\n                col = next_col\n                continue", twin=True),
     Mut("trim-coords-wrong-sign", _C, "CompositeCanvas.trim", "self.coords = self.translate_coords(0, -top)", "self.coords = self.translate_coords(0, top)", "PAIR|canvas.CompositeCanvas.trim"),
     Mut("pad-lr-coords-by-right", _C, "CompositeCanvas.pad_trim_left_right", "self.coords = self.translate_coords(left, 0)", "self.coords = self.translate_coords(right, 0)", "PAIR|canvas.CompositeCanvas.pad_trim_left_right"),
     Mut("pad-tb-coords-unconditional", _C, "CompositeCanvas.pad_trim_top_bottom", "            self.shards = [(top, [(0, 0, cols, top, None, blank_canvas)]), *self.shards]\n            self.coords = self.translate_coords(0, top)", "            self.shards = [(top, [(0, 0, cols, top, None, blank_canvas)]), *self.shards]\n        self.coords = self.translate_coords(0, top)", "PAIR|canvas.CompositeCanvas.pad_trim_top_bottom"),
